@@ -2,7 +2,8 @@
  * C04-H1: undo/redo histories at the line-buffer interface.
  * K operations, each chosen by the solver from
  *   0 edit as a command of its own, 1 compound command of two edits, 2 undo, 3 redo,
- *   4 lbuf_saved(clear) as after loading a file, 5 lbuf_saved(keep) as after :w.
+ *   4 lbuf_saved(clear) as after loading a file, 5 lbuf_saved(keep) as after :w,
+ *   6 a command that edits nothing (a deletion wholly past the end).
  * An edit replaces a solver-chosen range [beg,end) by a solver-chosen text of up to TL bytes over
  * {'a', newline} (or deletes it).  Ghost state: the text after every not-undone command.
  * Oracle: undo yields exactly the text before the most recent not-undone command however many
@@ -132,6 +133,15 @@ void harness(void)
 		} else if (op == 5) {
 			lbuf_saved(LB, 0);		/* saved: the history stays */
 			fresh = 0;
+		} else if (op == 6) {
+			/* a command that edits nothing: a deletion wholly past the end of the buffer (vi dd on an empty buffer).
+			 * It is no step of the history and does not cut the redo branch */
+			int len = lbuf_len(LB), d = symx_conc(symx_u8("past") & 1);
+			lbuf_edit(LB, NULL, len + d, len + d + 1);
+			lbuf_modified(LB);
+			symx_assert(same(snap[u]), "a deletion past the end changes nothing");
+			fresh = 0;
+			symx_reach("noop");
 		} else if (op == 2) {
 			int r = lbuf_undo(LB);
 			if (u == 0) {
